@@ -334,3 +334,92 @@ def _contains(root: ast.AST, node: ast.AST) -> bool:
 
 def build_cfg(func_node: ast.AST) -> CFG:
     return CFG(func_node)
+
+
+def _stored_names(node: Node) -> Set[str]:
+    """Local names (re)bound by the CFG node's own statement/header (not by nested bodies or comprehensions)."""
+    st = node.stmt
+    out: Set[str] = set()
+    if st is None:
+        return out
+
+    def targets_of(t):
+        for x in ast.walk(t):
+            if isinstance(x, ast.Name) and isinstance(x.ctx, (ast.Store, ast.Del)):
+                out.add(x.id)
+
+    def walk_expr(e):
+        stack = [e]
+        while stack:
+            x = stack.pop()
+            if isinstance(x, (ast.ListComp, ast.SetComp, ast.DictComp, ast.GeneratorExp, ast.Lambda)):
+                continue
+            if isinstance(x, ast.NamedExpr) and isinstance(x.target, ast.Name):
+                out.add(x.target.id)
+            stack.extend(ast.iter_child_nodes(x))
+
+    if node.kind == "for":
+        targets_of(st.target)
+    elif node.kind == "with":
+        for i in st.items:
+            if i.optional_vars is not None:
+                targets_of(i.optional_vars)
+    elif node.kind == "handler":
+        if st.name:
+            out.add(st.name)
+    elif node.kind in ("if", "while"):
+        walk_expr(st.test)
+    elif node.kind == "stmt":
+        if isinstance(st, ast.Assign):
+            for t in st.targets:
+                targets_of(t)
+            walk_expr(st.value)
+        elif isinstance(st, (ast.AugAssign, ast.AnnAssign)):
+            if not (isinstance(st, ast.AnnAssign) and st.value is None):
+                targets_of(st.target)
+        elif isinstance(st, ast.Delete):
+            for t in st.targets:
+                targets_of(t)
+        elif isinstance(st, (ast.FunctionDef, ast.AsyncFunctionDef, ast.ClassDef)):
+            out.add(st.name)
+        elif isinstance(st, (ast.Import, ast.ImportFrom)):
+            for a in st.names:
+                out.add((a.asname or a.name).split(".")[0])
+        elif isinstance(st, ast.Expr):
+            walk_expr(st.value)
+    return out
+
+
+def reaching_defs(cfg: CFG) -> Dict[int, Dict[str, Set[int]]]:
+    """IN sets: node id -> {name: {defining node ids}}; parameters are defined at ENTRY."""
+    gen: Dict[int, Set[str]] = {n.id: _stored_names(n) for n in cfg.nodes}
+    params: Set[str] = set()
+    f = cfg.func
+    if hasattr(f, "args"):
+        a = f.args
+        params = {p.arg for p in a.posonlyargs + a.args + a.kwonlyargs}
+        if a.vararg:
+            params.add(a.vararg.arg)
+        if a.kwarg:
+            params.add(a.kwarg.arg)
+    gen[cfg.entry] = params
+    preds = cfg.preds()
+    IN: Dict[int, Dict[str, Set[int]]] = {n.id: {} for n in cfg.nodes}
+    OUT: Dict[int, Dict[str, Set[int]]] = {n.id: {} for n in cfg.nodes}
+    work = [n.id for n in cfg.nodes]
+    while work:
+        n = work.pop(0)
+        new_in: Dict[str, Set[int]] = {}
+        for p in preds[n]:
+            for k, v in OUT[p].items():
+                new_in.setdefault(k, set()).update(v)
+        IN[n] = new_in
+        new_out = {k: set(v) for k, v in new_in.items()}
+        for name in gen[n]:
+            new_out[name] = {n}
+        if new_out != OUT[n]:
+            OUT[n] = new_out
+            for b, _ in cfg.succ[n]:
+                if b not in work:
+                    work.append(b)
+    return IN
